@@ -133,8 +133,12 @@ func describeReports(rs []oracletypes.MicroReport) []string {
 func (l *LabCtx) aggFns() map[string]aggFn {
 	k := l.C.App.OracleKeeper
 	return map[string]aggFn{
-		"median": func(rs []oracletypes.MicroReport) (*oracletypes.Aggregate, error) { return k.WeightedMedian(l.Ctx, rs, 7) },
-		"mode":   func(rs []oracletypes.MicroReport) (*oracletypes.Aggregate, error) { return k.WeightedMode(l.Ctx, rs, 7) },
+		"median": func(rs []oracletypes.MicroReport) (*oracletypes.Aggregate, error) {
+			return k.WeightedMedian(l.Ctx, rs, 7)
+		},
+		"mode": func(rs []oracletypes.MicroReport) (*oracletypes.Aggregate, error) {
+			return k.WeightedMode(l.Ctx, rs, 7)
+		},
 	}
 }
 
